@@ -950,7 +950,9 @@ def exhaustive(ctx, dendropy, rng, pending):
     shapes += [([[]], 1), ([[[]]], 1), ([[[], []]], 2), ([[[]], []], 2), ([[[], []], [[]]], 3), ([[[[], []], []]], 3),
                ([[], [[[], []]]], 3)]
     d1 = d2 = 0
-    for sh, n in shapes:
+    ctx.extra["exhaustive_shapes_total"] = len(shapes)
+    for k, (sh, n) in enumerate(shapes):
+        ctx.extra["exhaustive_shapes_completed"] = k
         for rooted in ("R", "U"):
             for lengths in ("none", "dyadic"):
                 start = shape_to_start(dendropy, rng, sh, n, rooted, lengths=lengths)
@@ -998,6 +1000,7 @@ def exhaustive(ctx, dendropy, rng, pending):
                         d2 += 1
                         if len(pending) >= 3000:
                             flush(ctx, pending)
+    ctx.extra["exhaustive_shapes_completed"] = len(shapes)
     return d1, d2
 
 
@@ -1083,9 +1086,11 @@ def run(ctx):
     if ctx.tier == "thorough":
         d1, d2 = exhaustive(ctx, dendropy, rng, pending)
         flush(ctx, pending)
-        ctx.extra["exhaustive_small_scope"] = ("%d depth-1 histories (every operation, target and flag combination) and %d depth-2 "
-                                               "histories (every pair of targets) from every tree shape of <= 4 leaves, rooted and "
-                                               "unrooted, with and without lengths" % (d1, d2))
+        ctx.extra["exhaustive_small_scope"] = (
+            "%d depth-1 histories (every operation, target and flag combination) and %d depth-2 histories (every pair of "
+            "targets, flags drawn once per target) from tree shapes of <= 4 leaves (all shapes without unary nodes plus "
+            "unary-decorated ones; rooted and unrooted; with and without lengths): %d of %d shapes completed within the budget"
+            % (d1, d2, ctx.extra.get("exhaustive_shapes_completed", 0), ctx.extra.get("exhaustive_shapes_total", 0)))
 
 
 def _t(par, tax, lens=None):
